@@ -88,12 +88,14 @@ W = em.world
 spec = {spec!r}
 side = "worker"
 chan = channel
-if spec["kind"] != "body-end":
+if spec["kind"] not in ("body-end", "body-eof"):
     chan = channel.receive()
 if spec["kind"] == "drop-cb":
     chan.setcallback(lambda x: None)
 for i in range(spec["n"]):
     chan.send(("item", i))
+if spec["kind"] == "body-eof":
+    raise EOFError("remote code ran into an EOF of its own")
 if spec["kind"] == "close":
     chan.close()
     try:
@@ -155,11 +157,11 @@ class CloseScn:
             spec = dict(P)
             if P["dir"] == "down":
                 ctl = gw.remote_exec(WORKER_SENDER.format(spec=spec))
-                if P["kind"] == "body-end":
+                if P["kind"] in ("body-end", "body-eof"):
                     chan = ctl
                 else:
                     chan = gw.newchannel()
-                ns = {"W": w, "side": "init", "chan": chan, "full_close": P["kind"] in ("close", "drop", "body-end"), "drain": P["r"] == 0, "can_close": True}
+                ns = {"W": w, "side": "init", "chan": chan, "full_close": P["kind"] in ("close", "drop", "body-end", "body-eof"), "drain": P["r"] == 0, "can_close": True}
                 exec(OBSERVER, ns)
                 w.exploring = True
                 if chan is not ctl:
@@ -326,7 +328,7 @@ def stmt_pred(m, q, l):
 
 def histories(tier):
     hs = []
-    for d, kinds in (("down", ("body-end", "close", "drop", "drop-cb")), ("up", ("close", "drop", "drop-cb"))):
+    for d, kinds in (("down", ("body-end", "body-eof", "close", "drop", "drop-cb")), ("up", ("close", "drop", "drop-cb"))):
         for kind in kinds:
             for n in (0, 2) if tier == "quick" else (0, 1, 2, 3):
                 for r, wn in ((1, 0), (2, 1), (0, 1)) if tier == "quick" else ((1, 0), (2, 0), (2, 1), (1, 2), (0, 1), (0, 2), (3, 1)):
